@@ -1466,6 +1466,104 @@ type c12Source struct {
 	name   string
 	weight int
 	gen    func(r *vlib.Rand) (payload []byte, recipe, kinds []string)
+	// multi, when set, produces all tables of a case (1-3) instead of one
+	multi func(r *vlib.Rand) []c12Part
+}
+
+func init() {
+	// the C11 grammar-directed generator of well-formed programs, first table only
+	c12ExtraSources = append(c12ExtraSources, func(r *vlib.Rand) []byte {
+		_, t := c11Build(r, c11DefaultOpts(r))
+		return t[0]
+	})
+}
+
+// c12Overlap builds runs of deferred-parsed opcodes (Buffer, While, BankField)
+// whose package lengths make the packages overlap or nest the wrong way round:
+// each is skipped in the first pass and parsed from its own offset later.
+func c12Overlap(r *vlib.Rand) ([]byte, []string, []string) {
+	n := r.Range(8, 300)
+	if r.Chance(1, 10) {
+		n = r.Range(300, 1200)
+	}
+	// unit = opcode, package length, then whatever the opcode needs before its
+	// next nested term (While: a predicate)
+	type unit struct{ op, after []byte }
+	units := []unit{{c12B(0x11), nil}, {c12B(0x11), nil}, {c12B(0xa2), c12B(0x01)}, {c12B(0x5b, 0x87), c12Cat(c12S("REG0"), c12S("FLD0"))}}
+	u := units[r.Intn(len(units))]
+	mixed := r.Chance(1, 5)
+	lenClass := r.Intn(5)
+	fixedLen := r.Range(2, 40) | 1
+	fillDen := []int{0, 0, 16, 4, 2}[r.Intn(5)] // 0: no filler at all (clean chains)
+	var out []byte
+	for i := 0; i < n; i++ {
+		if mixed {
+			u = units[r.Intn(len(units))]
+		}
+		out = append(out, u.op...)
+		var v int
+		switch lenClass {
+		case 0:
+			v = fixedLen
+		case 1:
+			v = r.Range(2, 63)
+		case 2:
+			v = 3 + 2*len(u.after)
+		case 3:
+			v = r.Range(64, 4000)
+		default:
+			v = fixedLen + i%3
+		}
+		if v <= 63 {
+			out = append(out, c12EncLen(v, 1)...)
+		} else {
+			out = append(out, c12EncLen(v, 2)...)
+		}
+		out = append(out, u.after...)
+		if fillDen > 0 && r.Intn(fillDen) == 0 {
+			switch r.Intn(3) {
+			case 0:
+				out = append(out, 0x01)
+			case 1:
+				out = append(out, 0x0a, byte(r.Intn(8)))
+			default:
+				out = append(out, c12TinyNames[r.Intn(len(c12TinyNames))]...)
+			}
+		}
+	}
+	out = append(out, repeatBytes(c12B(0x01), r.Intn(64))...)
+	rec := []string{fmt.Sprintf("overlap n=%d lenclass=%d fixed=%d mixed=%v fill=1/%d", n, lenClass, fixedLen, mixed, fillDen)}
+	if r.Chance(1, 3) {
+		wrapped := c12Method("MTH0", 0, out)
+		return wrapped, append(rec, "in-method"), nil
+	}
+	return out, rec, nil
+}
+
+// c12FromC11 turns one generated well-formed multi-table program into the
+// tables of a case: all of them as generated, or one / all of them mutated.
+func c12FromC11(r *vlib.Rand, light []c12Base) []c12Part {
+	_, tabs := c11Build(r, c11DefaultOpts(r))
+	if len(tabs) > 3 {
+		tabs = tabs[:3]
+	}
+	mode := r.Intn(10)
+	victim := r.Intn(len(tabs))
+	var parts []c12Part
+	for i, t := range tabs {
+		pt := c12Part{source: "c11", recipe: []string{fmt.Sprintf("c11 program table %d/%d", i+1, len(tabs))}, payload: t}
+		if mode >= 9 || (mode >= 2 && i == victim) {
+			var rec []string
+			pt.payload, rec, pt.kinds = c12Mutate(r, t, light)
+			pt.recipe = append(pt.recipe, rec...)
+			pt.source = "mut:c11"
+		}
+		if len(pt.payload) > c12MaxPayload {
+			pt.payload = pt.payload[:c12MaxPayload]
+		}
+		parts = append(parts, pt)
+	}
+	return parts
 }
 
 func c12PickBase(r *vlib.Rand, allowHeavy bool) c12Base {
@@ -1488,7 +1586,7 @@ func c12LightBases() []c12Base {
 	return l
 }
 
-func c12Sources() []c12Source {
+func c12Sources(thorough bool) []c12Source {
 	light := c12LightBases()
 	mutOf := func(name string, pick func(r *vlib.Rand) c12Base) func(r *vlib.Rand) ([]byte, []string, []string) {
 		return func(r *vlib.Rand) ([]byte, []string, []string) {
@@ -1498,8 +1596,8 @@ func c12Sources() []c12Source {
 		}
 	}
 	src := []c12Source{
-		{"mut:DSDT", 5, mutOf("DSDT", func(r *vlib.Rand) c12Base { return c12Bases[0] })},
-		{"mut:DSDT-window", 8, func(r *vlib.Rand) ([]byte, []string, []string) {
+		{name: "mut:DSDT", weight: 5, gen: mutOf("DSDT", func(r *vlib.Rand) c12Base { return c12Bases[0] })},
+		{name: "mut:DSDT-window", weight: 8, gen: func(r *vlib.Rand) ([]byte, []string, []string) {
 			// a run of whole top-level objects of the big table: structure of the
 			// real thing at a fraction of the cost
 			d := c12Bases[0].payload
@@ -1515,22 +1613,25 @@ func c12Sources() []c12Source {
 			out, rec, kinds := c12Mutate(r, win, light)
 			return out, append([]string{fmt.Sprintf("base=shipped:DSDT.aml[%d:%d]", o.off, o.off+o.n)}, rec...), kinds
 		}},
-		{"mut:SSDT", 8, mutOf("SSDT", func(r *vlib.Rand) c12Base { return c12Bases[1] })},
-		{"mut:testsuite", 18, mutOf("testsuite", func(r *vlib.Rand) c12Base { return c12Bases[2] })},
-		{"mut:hand", 24, mutOf("hand", func(r *vlib.Rand) c12Base { return c12Bases[3+r.Intn(len(c12Bases)-3)] })},
-		{"hand", 2, func(r *vlib.Rand) ([]byte, []string, []string) {
+		{name: "mut:SSDT", weight: 8, gen: mutOf("SSDT", func(r *vlib.Rand) c12Base { return c12Bases[1] })},
+		{name: "mut:testsuite", weight: 18, gen: mutOf("testsuite", func(r *vlib.Rand) c12Base { return c12Bases[2] })},
+		{name: "mut:hand", weight: 24, gen: mutOf("hand", func(r *vlib.Rand) c12Base { return c12Bases[3+r.Intn(len(c12Bases)-3)] })},
+		{name: "hand", weight: 2, gen: func(r *vlib.Rand) ([]byte, []string, []string) {
 			b := c12Bases[3+r.Intn(len(c12Bases)-3)]
 			return append([]byte(nil), b.payload...), []string{"base=" + b.name}, nil
 		}},
-		{"generated", 10, func(r *vlib.Rand) ([]byte, []string, []string) { return c12Generate(r), nil, nil }},
-		{"mut:generated", 16, func(r *vlib.Rand) ([]byte, []string, []string) {
+		{name: "generated", weight: 10, gen: func(r *vlib.Rand) ([]byte, []string, []string) { return c12Generate(r), nil, nil }},
+		{name: "mut:generated", weight: 16, gen: func(r *vlib.Rand) ([]byte, []string, []string) {
 			out, rec, kinds := c12Mutate(r, c12Generate(r), light)
 			return out, append([]string{"base=generated"}, rec...), kinds
 		}},
-		{"deep", 2, func(r *vlib.Rand) ([]byte, []string, []string) {
+		{name: "deep", weight: 2, gen: func(r *vlib.Rand) ([]byte, []string, []string) {
 			kind, depth := r.Intn(6), r.Range(50, 1500)
 			if r.Chance(1, 8) {
 				depth = r.Range(1500, 6000)
+				if thorough && r.Chance(1, 4) {
+					depth = r.Range(6000, 15000) // stays below 64 KiB for every kind
+				}
 			}
 			out := c12Deep(kind, depth)
 			rec := []string{fmt.Sprintf("deep kind=%d depth=%d", kind, depth)}
@@ -1541,8 +1642,42 @@ func c12Sources() []c12Source {
 			}
 			return out, rec, nil
 		}},
-		{"random:bytes", 3, func(r *vlib.Rand) ([]byte, []string, []string) { return r.Bytes(r.Intn(65))[:], nil, nil }},
-		{"random:alphabet", 6, func(r *vlib.Rand) ([]byte, []string, []string) {
+		{name: "overlap", weight: 3, gen: c12Overlap},
+		{name: "wide", weight: 1, gen: func(r *vlib.Rand) ([]byte, []string, []string) {
+			// many small objects in one scope: lookups that scan sibling lists
+			n := r.Range(100, 1500)
+			if thorough && r.Chance(1, 4) {
+				n = r.Range(1500, 9000)
+			}
+			kind := r.Intn(4)
+			var out []byte
+			for i := 0; i < n; i++ {
+				nm := fmt.Sprintf("N%03X", i%4096)
+				switch kind {
+				case 0:
+					out = append(out, c12Name(nm, c12B(0x00))...)
+				case 1:
+					out = append(out, nm...) // bare names: each one is looked up
+				case 2:
+					out = append(out, c12Cat(c12B(0x08, 0x5c, 0x2e), c12S("_SB_"), c12S(nm), c12B(0x01))...) // each one relocated
+				default:
+					out = append(out, c12Scope("\\_SB_", c12Name(nm, c12B(0x00)))...) // each one merged
+				}
+			}
+			rec := []string{fmt.Sprintf("wide kind=%d n=%d", kind, n)}
+			if kind == 1 {
+				out = c12Cat(c12Method("N000", 0), out)
+			}
+			if r.Chance(1, 3) {
+				var r2, k2 []string
+				out, r2, k2 = c12Mutate(r, out, light)
+				return out, append(rec, r2...), k2
+			}
+			return out, rec, nil
+		}},
+		{name: "c11-program", weight: 22, multi: func(r *vlib.Rand) []c12Part { return c12FromC11(r, light) }},
+		{name: "random:bytes", weight: 3, gen: func(r *vlib.Rand) ([]byte, []string, []string) { return r.Bytes(r.Intn(65))[:], nil, nil }},
+		{name: "random:alphabet", weight: 6, gen: func(r *vlib.Rand) ([]byte, []string, []string) {
 			n := r.Intn(200)
 			out := make([]byte, 0, n+4)
 			for len(out) < n {
@@ -1567,8 +1702,8 @@ func c12Sources() []c12Source {
 			return p
 		}
 		src = append(src,
-			c12Source{"extra", 6, func(r *vlib.Rand) ([]byte, []string, []string) { return extra(r), nil, nil }},
-			c12Source{"mut:extra", 24, func(r *vlib.Rand) ([]byte, []string, []string) {
+			c12Source{name: "extra", weight: 6, gen: func(r *vlib.Rand) ([]byte, []string, []string) { return extra(r), nil, nil }},
+			c12Source{name: "mut:extra", weight: 10, gen: func(r *vlib.Rand) ([]byte, []string, []string) {
 				out, rec, kinds := c12Mutate(r, extra(r), light)
 				return out, append([]string{"base=extra"}, rec...), kinds
 			}})
